@@ -167,7 +167,7 @@ def _GridWorld(case, rng):
     from msdm.domains.gridworld.mdp import GridWorld, TERMINALSTATE
     from frozendict import frozendict
     rows, w, h = _rand_grid(rng, list(".#sgxa"), [6, 2, 1, 1, 1, 1], must=("s",))
-    sp_ = rng.choice([0, 0.3, 1.0, 1.0])
+    sp_ = rng.choice([0, 0.3, 1.0, 1.0] * 3 + [1e-10, 1 - 1e-10, 2.0 ** -40])      # and moves that almost never / almost always succeed
     step = rng.choice([-1, 0, -0.5])
     fr = rng.choice([None, {"g": 5, "x": -10, "a": 2}, {"x": -3}])
     absf = rng.choice([("g",), ("g", "x")])
